@@ -253,6 +253,9 @@ func RunSolversCtx(parent context.Context, query string, wantModel bool, timeout
 				}
 			}
 			r := SolverResult{Solver: s.name, Output: o, Dur: time.Since(t0)}
+			if strings.Contains(o, "(error ") && !strings.Contains(o, "model is not available") {
+				first = "error"
+			}
 			switch {
 			case first == "unsat":
 				r.Status = "unsat"
